@@ -10,7 +10,7 @@ SHARD = 25000
 
 def numeric(prop, src, build='asan', nq=20000, nt=1000000, groups_q=None, groups_t=None, float_groups=None,
             rule='', assumptions=(), level='exploration', timeout_q=900, timeout_t=7200, extra_defs=(), float_n_scale=1.0,
-            extra_bins=None, shard=SHARD):
+            extra_bins=None, shard=SHARD, n_scale=None):
     gq = groups_q if groups_q is not None else CORE + ['R1', 'R9'] + BUNDLES_Q
     gt = groups_t if groups_t is not None else CORE + ['R1', 'R9'] + BUNDLES_T
     fg = float_groups if float_groups is not None else CORE
@@ -40,6 +40,7 @@ def numeric(prop, src, build='asan', nq=20000, nt=1000000, groups_q=None, groups
             if not b.path: continue
             nn = n
             if 'MS=float' in b.defs: nn = int(n * float_n_scale)
+            if n_scale: nn = max(1, int(nn * n_scale.get(b.defs[0][3:], 1.0)))
             k = max(1, (nn + shard - 1) // shard)
             for sidx in range(k):
                 jobs.append({'bin': b, 'n': min(shard, nn - sidx * shard), 'seed': seed * 1000 + sidx, 'tag': '/'.join(d.split('=')[1] for d in b.defs[:2])})
@@ -76,6 +77,13 @@ REGISTRY['C01'] = numeric('C01', 'c01_group.cpp', nq=20000, nt=1000000,
 REGISTRY['C06'] = numeric('C06', 'c06_jac.cpp', nq=8000, nt=400000,
                           rule='tangent Jacobians and adjoints: ' + RULE_STRATA, assumptions=ASSUME_FP + ['float instantiations are held to 1e-2 only (the property states its bound for double)'])
 
+REGISTRY['C05'] = numeric('C05', 'c05_jacobians.cpp', nq=3000, nt=150000, shard=2500, float_groups=['SE2', 'SO3', 'SE3', 'SGAL3'], float_n_scale=0.3,
+                          n_scale={'BT1': 0.4, 'BT4': 0.25, 'BT0': 0.5, 'BT2': 0.3, 'BT3': 0.2, 'BT5': 0.3, 'BT6': 0.5, 'BR0': 0.6, 'BR2': 0.5, 'BA': 0.6, 'SGAL3': 0.6, 'SE23': 0.7},
+                          rule='Jacobians of inverse, log, exp, compose, between, rplus, lplus, rminus, lminus, act (each w.r.t. every argument), plus/minus aliases and tangent plus/minus; '
+                               'per case 4 (2 for large bundles) operations are drawn; operands: element X, tangent t, second element Y either independent or at the stratified relative transform exp(t) from X; '
+                               + RULE_STRATA, assumptions=ASSUME_FP + ['oracle Jacobian = 4th-order central differences of the definition on the long-double model, step min(1e-4, 0.01*(pi-theta))',
+                                                                       'float instantiations are held to 1e-2 only (the property states its bound for double)'])
+
 # ------------------------------------------------------------------------------------------------
 # MANIFEST metadata
 # ------------------------------------------------------------------------------------------------
@@ -96,6 +104,9 @@ MANIFEST_META = {
     'C03': dict(engine='ref-model differential monitor', design_ref='DESIGN.md 4/C03', technique='differential runtime monitor over six element-production routes vs model exp/log',
                 text='X.log() is checked (finite, principal, exp_ref(log X)=X, equal to the model logarithm, log(q)=log(-q), t.exp().log()=t) on elements produced by six routes including both quaternion hemispheres and products of near-pi rotations (angle 2pi-eps), which no unit test generates.',
                 note=NOTE_NUM + ' Near pi the tolerance carries the documented conditioning term 16u/(pi-theta).'),
+    'C05': dict(engine='ref-model differential monitor', design_ref='DESIGN.md 4/C05', technique='runtime monitor: analytic Jacobians vs 4th-order central differences of the definition on the long-double model',
+                text='Each returned Jacobian of inverse, log, exp, compose, between, rplus, lplus, rminus, lminus, act (w.r.t. every argument) is compared with the derivative of f(X (+) d) (-) f(X) computed on the reference model, at the 1e-6 relative bound the property states; argument rotation and relative rotation are swept independently from 0 to pi-1e-6, translations 0..1e6. A disagreement is judged only if the oracle agrees with itself at h/2 and 2h (otherwise counted as oracle-unresolved).',
+                note=NOTE_NUM + ' Samples within ~3e-6 of the cut locus with |time*velocity| >= 1e8 can be oracle-unresolved; they are counted in the evidence, not judged.'),
     'C06': dict(engine='ref-model differential monitor', design_ref='DESIGN.md 4/C06', technique='runtime monitor vs series-defined Jr (augmented expm of ad), model Adj/ad',
                 text='rjac/ljac are compared with sum_k (-ad)^k/(k+1)! evaluated as a block of expm([[-ad,I],[0,0]]) (no small-angle case analysis in the oracle), the inverses with the model inverse and as products, Adj/adj/smallAdj with their definitions on the reference matrices, at the 1e-6 relative bound the property states, densely in (sqrt(eps),1e-2) where the defects were.',
                 note=NOTE_NUM),
